@@ -55,7 +55,9 @@ Inductive case :=
       destinations seen, the SNI seen, the Host header seen (https), and whether
       the exchange succeeded (for tls/https that means the certificate for
       [cert] was accepted) *)
-| CNet (a : uin) (socks : bool) (cert : san) (obs : option (list (dest * N) * str * str * bool)).
+| CNet (a : uin) (socks : bool) (cert : san) (obs : option (list (dest * N) * str * str * bool))
+  (** the code under test panicked on these input strings *)
+| CPanic (a b : str).
 
 (** ** agree: the observation is what the model computes *)
 
@@ -138,6 +140,7 @@ Definition agree (c : case) : bool :=
          end
     | _, _ => false
     end
+  | CPanic _ _ => false
   end.
 
 (** ** spec: the property's own oracle on the observation, from what the
@@ -288,6 +291,7 @@ Definition spec (c : case) : bool :=
       | None, _ => true
       end
     end
+  | CPanic _ _ => false
   end.
 
 (** ** nontrivial: an IPv6 form, a dial_addr override or an omitted port is involved *)
@@ -305,4 +309,5 @@ Definition nontrivial (c : case) : bool :=
     in_domain (uin_addr a) &&
     (negb (is_nil (uin_dial a)) || v6ish (uin_addr a)
     || match a with UMean _ e _ _ _ _ => negb (is_some (ep_port e)) | _ => false end)
+  | CPanic _ _ => true
   end.
